@@ -178,8 +178,12 @@ class Result:
             'wall_s': round(time.time() - self.t0, 3),
             'violations': len(self.violations),
         }
-        os.makedirs(os.path.join(VERIF_DIR, 'evidence'), exist_ok=True)
-        path = os.path.join(VERIF_DIR, 'evidence', self.prop + '.json')
+        evdir = os.path.join(VERIF_DIR, 'evidence')
+        if os.environ.get('VERIF_NO_EVIDENCE'):
+            # runs against seeded changes must not touch committed evidence
+            evdir = '/tmp/verif_scratch_evidence'
+        os.makedirs(evdir, exist_ok=True)
+        path = os.path.join(evdir, self.prop + '.json')
         tmp = path + '.tmp%d' % os.getpid()
         with open(tmp, 'w') as f:
             json.dump(ev, f, indent=1, sort_keys=True, default=repr)
